@@ -175,6 +175,17 @@ func (u *UserHash) writeHashStr(password string, isAdmin bool, mayCreate bool) e
 	}
 	defer file.Close() //nolint:errcheck
 
+	renamed := false
+	if mayCreate {
+		// O_EXCL: the (still empty) file has been created by us to reserve the name,
+		// it must not stay behind if anything goes wrong before the new hash is in place
+		defer func() {
+			if !renamed {
+				os.Remove(file.Name()) //nolint:errcheck
+			}
+		}()
+	}
+
 	tmp, err := u.store.getTempFile()
 	if err != nil {
 		return err
@@ -210,6 +221,7 @@ func (u *UserHash) writeHashStr(password string, isAdmin bool, mayCreate bool) e
 	if err := os.Rename(tmp.Name(), file.Name()); err != nil {
 		return err
 	}
+	renamed = true
 
 	// Flush the move to disk
 	dir, err := os.Open(filepath.Dir(file.Name()))
